@@ -123,3 +123,6 @@ def run(idx: ProgramIndex, rep: Report, tier: str):
     for cn in ("_ApproximateMarginalLogLikelihood", "VariationalELBO", "PredictiveLogLikelihood", "GammaRobustVariationalELBO", "NGD"):
         funcs += list(idx.find_class(cn).methods.values())
     aliasing_obligations(idx, rep, "C15-4", funcs, 6, "variational objective methods interpreted")
+    rep.rule("C15-5", "the enumerators feeding the objective are total: every registered prior / added-loss term is yielded, with (module, prior, closure) of the same registration at the positions the objective unpacks")
+    from .common_enum import enumeration_obligations
+    enumeration_obligations(idx, rep, "C15-5", [fi], floor=9)
